@@ -64,7 +64,7 @@ impl Prop for C01 {
     }
     fn phases(&self, tier: Tier) -> Vec<Phase> {
         vec![
-            Phase::new("random", tier.pick(30000, 280000)).min_cases(tier.pick(8000, 60000)).timeouts(60, tier.pick(240, 1500)),
+            Phase::new("random", tier.pick(30000, 500000)).min_cases(tier.pick(8000, 80000)).timeouts(60, tier.pick(240, 1500)),
             Phase::new("random-opt", tier.pick(6000, 80000)).min_cases(tier.pick(1500, 20000)).timeouts(60, tier.pick(240, 900)),
             Phase::new("random-prelude", tier.pick(1500, 20000)).min_cases(tier.pick(400, 5000)).timeouts(120, tier.pick(240, 900)),
         ]
